@@ -482,6 +482,8 @@ def resolver_workload(rng, n, max_heavy=(3, 6, 10, 16)):
             case = random_multilevel_case(rng, rng.choice(max_heavy), coarse_last=rng.random() < 0.3)
         elif r < 0.72:
             case = random_coarse_cut_case(rng, rng.randint(2, 12))
+        elif r < 0.78:
+            case = random_marked_cut_case(rng)
         else:
             case = ambig.random_case(rng)
         if case is None:
@@ -523,3 +525,78 @@ def describe_case(case):
     if k == 'multilevel':
         return case['multi_string']
     return case_text(case)
+
+
+# ---------------------------------------------------------------------------------------------
+# cuts THROUGH a marked single bond: the slash is written between the double-bond atom and its
+# descriptor (C=C/[$x]); no stereo expectation is attached, only the generator-independent invariants
+
+def random_marked_cut_case(rng):
+    from ..gen import stereo as S
+    for _ in range(50):
+        res = S.gen_stereo_molecule(rng, n_chiral=0)
+        if res is not None:
+            break
+    else:
+        return None
+    g, stereo, chiral = res
+    pairs = [(s[l], s[a]) for s in stereo for l, a in (('l1', 'a1'), ('l2', 'a2'))]
+    cut_pairs = [p for p in pairs if rng.random() < 0.6] or [rng.choice(pairs)]
+    cut_edges = [frozenset(p) for p in cut_pairs]
+    slash_pairs = {frozenset(p) for p in pairs}
+    for e in g.edges:
+        fe = frozenset(e)
+        if fe not in slash_pairs and g.edges[e]['order'] == 1 and rng.random() < 0.25 and len(cut_edges) < 5:
+            cut_edges.append(fe)
+    h = g.copy()
+    h.remove_edges_from([tuple(e) for e in cut_edges])
+    comps = list(nx.connected_components(h))
+    part = {n: i for i, c in enumerate(comps) for n in c}
+    labels = M.label_pool(rng)
+    desc, cutcount, label_of = {}, {}, {}
+    for e in cut_edges:
+        a, b = tuple(e)
+        lab = next(labels)
+        label_of[e] = lab
+        desc.setdefault(a, []).append(('$', lab, 1))
+        desc.setdefault(b, []).append(('$', lab, 1))
+        key = frozenset((part[a], part[b]))
+        cutcount[key] = cutcount.get(key, 0) + 1
+    if any(v > 4 for v in cutcount.values()):
+        return None
+    frags = {}
+    for i, comp in enumerate(comps):
+        r = M.render_fragment(rng, g, sorted(comp), desc, opts={'explicit_single': 0.0, 'leading': False, 'desc_pos': 'after'})
+        idx = {n: k for k, n in enumerate(r['atoms'])}
+        # intact marked pairs of this fragment get a slash between the two atoms; for a cut pair the
+        # slash goes in front of the descriptor on the double-bond atom
+        child_tok, desc_tok = {}, {}
+        for (lig, anc) in pairs:
+            tok = rng.choice(['/', '\\'])
+            if frozenset((lig, anc)) in label_of:
+                if anc in idx:
+                    desc_tok[(anc, label_of[frozenset((lig, anc))])] = tok
+            elif lig in idx and anc in idx:
+                child_tok[lig if idx[lig] > idx[anc] else anc] = tok
+        out = []
+        for t in r['tokens']:
+            if t[0] == 'atom' and t[2] in child_tok:
+                out.append(child_tok[t[2]])
+            if t[0] == 'desc' and (t[2], t[3][1]) in desc_tok:
+                out.append(desc_tok[(t[2], t[3][1])])
+            out.append('(' if t[0] == 'open' else ')' if t[0] == 'close' else t[1])
+        frags['F%d' % i] = ''.join(out)
+    base = nx.Graph()
+    order = list(range(len(comps)))
+    rng.shuffle(order)
+    for i in order:
+        base.add_node(i, fragname='F%d' % i)
+    for key, v in cutcount.items():
+        a, b = tuple(key)
+        base.add_edge(a, b, order=v)
+    ast, pre = M.base_to_ast(rng, base)
+    items = list(frags.items())
+    rng.shuffle(items)
+    return dict(kind='marked_cut', base_string=G.to_string(ast), frag_string='{' + ','.join('#%s=%s' % kv for kv in items) + '}',
+                ctor='string', features=['cut_through_marked_single_bond', 'double_bonds_%d' % len(stereo)],
+                nheavy=len(g), nfrag=len(comps))
